@@ -14,9 +14,9 @@ type OpaqueDom struct{}
 
 type Opaque struct{ Name string }
 
-func (OpaqueDom) Name() string                  { return "opaque data" }
-func (OpaqueDom) IsAtom(t types.Type) bool      { return false }
-func (OpaqueDom) ZeroAtom(t types.Type) Val     { return MkInt(0) }
+func (OpaqueDom) Name() string              { return "opaque data" }
+func (OpaqueDom) IsAtom(t types.Type) bool  { return false }
+func (OpaqueDom) ZeroAtom(t types.Type) Val { return MkInt(0) }
 func (OpaqueDom) BinOp(in *Interp, op token.Token, x, y Val, xt types.Type, pos ssa.Instruction) Val {
 	in.Undecided(pos, "operates on input data (%v %s %v) on a path that should not depend on it", x, op, y)
 	return nil
@@ -32,5 +32,7 @@ func (OpaqueDom) Convert(in *Interp, x Val, from, to types.Type, pos ssa.Instruc
 func (OpaqueDom) Call(in *Interp, site ssa.Instruction, fn *ssa.Function, args []Val) ([]Val, bool) {
 	return nil, false
 }
-func (OpaqueDom) Branch(in *Interp, cond Val, site *ssa.If) (bool, bool, bool) { return false, false, false }
-func (OpaqueDom) Assume(in *Interp, cond Val, truth bool, site *ssa.If)         {}
+func (OpaqueDom) Branch(in *Interp, cond Val, site *ssa.If) (bool, bool, bool) {
+	return false, false, false
+}
+func (OpaqueDom) Assume(in *Interp, cond Val, truth bool, site *ssa.If) {}
